@@ -126,6 +126,7 @@ type vfbNode struct {
 	honest   bool
 	recvOff  int32 // atomic: 1 = inbound traffic to this node fails (partition / down)
 	sendOff  int32
+	act      int64 // atomic: events this node took part in (emissions, puts, deliveries handled)
 }
 
 type vfbNet struct {
@@ -281,6 +282,16 @@ func vfbNewNet(run *vfRun, cfg vfbConfig, start time.Time) (*vfbNet, error) {
 func (nt *vfbNet) chained() bool { return nt.cfg.Scheme.Name == crypto.DefaultSchemeID }
 
 func (nt *vfbNet) record(e vfbEvent) int64 {
+	switch e.Kind {
+	case "emit":
+		if e.From >= 0 && e.From < len(nt.nodes) {
+			atomic.AddInt64(&nt.nodes[e.From].act, 1)
+		}
+	case "put", "deliver-ret":
+		if e.Node >= 0 && e.Node < len(nt.nodes) {
+			atomic.AddInt64(&nt.nodes[e.Node].act, 1)
+		}
+	}
 	nt.mu.Lock()
 	nt.seq++
 	e.Seq = nt.seq
@@ -452,8 +463,32 @@ func (nt *vfbNet) Settle() {
 	}
 }
 
-// Step = advance + settle.
-func (nt *vfbNet) Step(d time.Duration) { nt.Advance(d); nt.Settle() }
+// Step = advance + settle. When the advance takes a running node into a new round, that node is expected to
+// react (tick -> partial / put); the step first waits (bounded) for that positive signal, so that a loaded
+// machine does not make an idle-looking network pass for a quiet one. Pacing only, never a verdict.
+func (nt *vfbNet) Step(d time.Duration) {
+	type exp struct {
+		n      *vfbNode
+		before int64
+	}
+	var expect []exp
+	for _, n := range nt.nodes {
+		if n.honest && n.running && n.handler != nil {
+			r0 := nt.clockRound(n)
+			if common.CurrentRound(n.clk.Now().Add(d).Unix(), nt.cfg.Period, nt.genesis) > r0 || r0 == 0 {
+				expect = append(expect, exp{n, atomic.LoadInt64(&n.act)})
+			}
+		}
+	}
+	nt.Advance(d)
+	deadline := time.Now().Add(1500 * time.Millisecond)
+	for _, e := range expect {
+		for atomic.LoadInt64(&e.n.act) == e.before && time.Now().Before(deadline) {
+			time.Sleep(time.Millisecond)
+		}
+	}
+	nt.Settle()
+}
 
 func (nt *vfbNet) Head(n *vfbNode) uint64 {
 	if n.tap == nil {
